@@ -31,6 +31,10 @@ pub fn gen(seed: u64, tier: Tier) -> ScenarioSpec {
         }
     }
     spec.knobs.insert("prelude".into(), gen_prelude(&mut rng, &[1, 4, 5], 8));
+    // the order in which an application asks for rows: forward, backward, random with repeats, or two games
+    // of the same shape walked side by side on one thread (as a comparison tool does)
+    spec.knobs.insert("walk".into(), match rng.below(8) { 0..=3 => 0, 4 => 1, 5 => 2, 6 => 3, _ => 4 });
+    spec.knobs.insert("walk_seed".into(), (rng.next_u64() >> 1) as i64);
     spec
 }
 
@@ -44,10 +48,79 @@ pub fn run(spec: &ScenarioSpec, ctx: &mut Ctx) -> Result<(), Violation> {
         return s2::run(spec, &m, ctx, P, s2::Flags { model_rows: false, row_view: true, protocol: false, final_equiv: false });
     }
     let Some(game) = s1_read(P, spec, &m, ctx, false)? else { return Ok(()) };
-    for r in 0..game.frames.len() {
-        let fr = guarded(|| game.frame(r)).map_err(|c| caught_violation(P, "Game::frame", &c))?;
-        let n = s2::check_row_view(&game.frames, r, &fr, m.v).map_err(|f| fail_v(P, f))?;
+    let walk = spec.knob("walk");
+    let mut wr = Rng::new(spec.knob("walk_seed") as u64);
+    let n_rows = game.frames.len();
+    let check = |g: &peppi::game::immutable::Game, r: usize, ctx: &mut Ctx, tag: &str| -> Result<(), Violation> {
+        let fr = guarded(|| g.frame(r)).map_err(|c| caught_violation(P, "Game::frame", &c))?;
+        let n = s2::check_row_view(&g.frames, r, &fr, m.v).map_err(|f| {
+            let mut v = fail_v(P, f);
+            if !tag.is_empty() {
+                v.site = format!("{} {}", tag, v.site);
+            }
+            v
+        })?;
         ctx.checks(n);
+        Ok(())
+    };
+    match walk {
+        1 => {
+            ctx.probe("rows asked for in backward order");
+            for r in (0..n_rows).rev() {
+                check(&game, r, ctx, "backward-walk")?;
+            }
+        }
+        2 => {
+            ctx.probe("rows asked for in random order with repeats");
+            for _ in 0..(n_rows + n_rows / 2) {
+                let r = wr.usize_below(n_rows.max(1));
+                if r < n_rows {
+                    check(&game, r, ctx, "random-walk")?;
+                }
+            }
+        }
+        3 | 4 => {
+            // a second game of the same shape but with different item counts and payloads
+            let mut rec_b = spec.recorder.clone();
+            rec_b.start_pseed ^= 0xB0B;
+            for (k, f) in rec_b.frames.iter_mut().enumerate() {
+                f.items = ((f.items as usize * 2 + 1 + k) % 5) as u16;
+                f.pseed = crate::prng::mix(f.pseed, 0xB);
+            }
+            let mb = recorder::build(&rec_b);
+            let gb = crate::pipeline::read_slp_noopts(&mb.bytes, &StreamSpec::default(), &[]);
+            match gb.res {
+                crate::pipeline::Res::Ok(gb) => {
+                    ctx.probe("two games walked side by side on one thread");
+                    let nb = gb.frames.len();
+                    let steps = n_rows.max(nb);
+                    for r in 0..steps {
+                        let (ra, rb) = if walk == 3 { (r, r + 1) } else { (wr.usize_below(n_rows.max(1)), wr.usize_below(nb.max(1))) };
+                        if ra < n_rows {
+                            check(&game, ra, ctx, "side-by-side(a)")?;
+                        }
+                        if rb < nb {
+                            check(&gb, rb, ctx, "side-by-side(b)")?;
+                        }
+                    }
+                    // and whatever was skipped above
+                    for r in 0..n_rows {
+                        check(&game, r, ctx, "")?;
+                    }
+                }
+                _ => {
+                    ctx.skip("second game could not be read");
+                    for r in 0..n_rows {
+                        check(&game, r, ctx, "")?;
+                    }
+                }
+            }
+        }
+        _ => {
+            for r in 0..n_rows {
+                check(&game, r, ctx, "")?;
+            }
+        }
     }
     // the finished representation also comes out of the .slpp reader (Arrow import): same contract
     if spec.knob("via_slpp") != 0 {
